@@ -557,6 +557,94 @@ def run_uri(c, hbin, model, cases):
     return diffs, crashed, accepted, bad
 
 
+# ---- iconv-handled (not ASCII-compatible for cppcms) encodings: judge only, no model ---------------------------------
+def sjis_wf(b):
+    """structural well-formedness of Shift_JIS (JIS X 0208 lead/trail byte tables; assignedness is not checked)"""
+    i, n = 0, len(b)
+    while i < n:
+        c = b[i]
+        if c < 0x80 or 0xA1 <= c <= 0xDF:
+            i += 1
+        elif 0x81 <= c <= 0x9F or 0xE0 <= c <= 0xFC:
+            if i + 1 >= n or not (0x40 <= b[i + 1] <= 0x7E or 0x80 <= b[i + 1] <= 0xFC):
+                return False
+            i += 2
+        else:
+            return False
+    return True
+
+
+def eucjp_wf(b):
+    """structural well-formedness of EUC-JP (code sets 0-3)"""
+    i, n = 0, len(b)
+    t = lambda k: k < n and 0xA1 <= b[k] <= 0xFE
+    while i < n:
+        c = b[i]
+        if c < 0x80:
+            i += 1
+        elif c == 0x8E:
+            if not (i + 1 < n and 0xA1 <= b[i + 1] <= 0xDF):
+                return False
+            i += 2
+        elif c == 0x8F:
+            if not (t(i + 1) and t(i + 2)):
+                return False
+            i += 3
+        elif 0xA1 <= c <= 0xFE:
+            if not t(i + 1):
+                return False
+            i += 2
+        else:
+            return False
+    return True
+
+
+MB = {b"Shift_JIS": (sjis_wf, [b"\x82\xa0", b"\x83\x41", b"\x93\xfa\x96\x7b", b"\xb1", b"\xe0\x40"], [b"\x82", b"\x93", b"\xe0", b"\xfc", b"\x81"]),
+      b"EUC-JP": (eucjp_wf, [b"\xa4\xa2", b"\xc6\xfc\xcb\xdc", b"\x8e\xb1", b"\x8f\xb0\xa1"], [b"\xa4", b"\x8e", b"\x8f", b"\x8f\xb0", b"\xfe"])}
+
+
+def run_multibyte(c, hbin):
+    """real validate / filter under an iconv-handled encoding (booster::locale::conv path, not modelled): texts with complete
+    characters and with truncated tails; judged with the independent structural tables above"""
+    tags = "%s:3,%s:1" % (hx(b"a"), hx(b"b"))
+    cases, meta = [], []
+    for enc, (wf, good, lead) in MB.items():
+        texts = []
+        for g in good:
+            texts += [g, b"a" + g + b"b", b"<b>" + g + b"</b>", g + b"<x>", b"&amp;" + g]
+        for l in lead:                    # input ends inside a multibyte sequence
+            texts += [l, b"abc" + l, good[0] + l, b"<b>x</b>" + l, b"<b>" + good[0] + b"</b>" + l, b"<x>" + l]
+            texts += [l + b"<b>x</b>", b"a" + l + b"\x00"]
+        for x in texts:
+            for xh in (1, 0):
+                cases.append("C %d00:%s:0 - %s - - %s" % (xh, hx(enc), tags, hexs(x)))
+                meta.append((enc, wf, x))
+    rc, out, err = c.run_lines(hbin, cases)
+    c.evaluations += len(cases)
+    bad = []
+    for k in range(min(len(out), len(cases))):
+        mm = FIELD_RE.match(out[k].split(" T=")[0])
+        enc, wf, x = meta[k]
+        if not mm:
+            bad.append((k, "implementation answered: " + out[k][:120]))
+            continue
+        v, rm, esc, frm, fesc, vrm, vesc = mm.groups()
+        if v == "1" and not wf(x):
+            bad.append((k, "validate accepted text that is not well-formed %s (ends inside / breaks a multibyte sequence)" % enc.decode()))
+        if vrm != "1" or vesc != "1":
+            bad.append((k, "validate(filter(x)) is false under " + enc.decode()))
+        for o in (frm, fesc):
+            if not wf(unhex(o)):
+                bad.append((k, "filter output is not well-formed " + enc.decode()))
+    c.log(f"judge[iconv encodings]: {len(cases)} cases, {len(bad)} failures, impl rc={rc}")
+    c.extra_cov["iconv_encoding_cases_judge_only"] = len(cases)
+    if rc != 0 and len(out) < len(cases):
+        c.violation("sanitizer abort / crash of the real code (iconv-handled encoding)", {"case": cases[len(out)], "stderr": err})
+    for k, what in bad[:5]:
+        c.violation("property predicate false on implementation output: " + what,
+                    {"case": cases[k], "impl_output": out[k] if k < len(out) else None, "input_bytes": repr(meta[k][2])})
+
+
 def corpus_cases():
     d = os.path.join(ROOT, "gen", "corpus", "C04")
     res = []
@@ -858,6 +946,8 @@ def main():
             # smallest differing case first
             k, cs, a, b = min(res["diffs"], key=lambda d: len(d[1]))
             c.broke("correspondence stream xss", f"{len(res['diffs'])} differing cases; smallest: {cs} input={unhex(cs.split()[6])!r} impl={a} model={b}")
+        if not c.replay_path:
+            run_multibyte(c, hbin)
         # the URI validator on its own: model of uri_parser vs. the real one
         if not c.replay_path:
             ucases = [l for l in corpus if l.startswith("U ")] + gen_uri_cases(c, 20000 if thorough else 3000)
